@@ -72,4 +72,7 @@ theorem selection_after_concurrent_adds (U : Bytes → Tx) (cfg : Config) (txs t
     select Variant.current (addAll cfg txs) s q = select Variant.current (addAll cfg txs') s q :=
   SV.TxCache.selection_after_concurrent_adds U cfg txs txs' hp hnd hw hl s q
 
+/-- (regenerated fact) both index updates of AddTx sit inside one `mutTxOperation` critical section -/
+theorem addTx_is_one_critical_section : Facts.addTxIndexUpdatesAtomic = true := Facts.addTx_updates_atomic
+
 end SV.Props.C14
